@@ -151,6 +151,42 @@ def same(a, b, ctx):
     return a == b
 
 
+def grouping(t):
+    """How the additions of a term are grouped: nested tuples, zero constants dropped (0 + x is x in floating point too),
+    everything below another operator kept as an opaque leaf.  Two runs whose results are equal as real numbers but whose
+    groupings differ evaluate their sums in another order in floating point."""
+    if z3.is_app(t) and t.decl().kind() == z3.Z3_OP_ADD:
+        kids = [grouping(c) for c in t.children()]
+        kids = [k for k in kids if k != ('0',)]
+        if not kids:
+            return ('0',)
+        if len(kids) == 1:
+            return kids[0]
+        out = kids[0]
+        for k in kids[1:]:
+            out = ('+', out, k)
+        return out
+    if z3.is_app(t) and t.decl().kind() == z3.Z3_OP_TO_REAL:
+        return grouping(t.arg(0))
+    if z3.is_rational_value(t) or z3.is_int_value(t):
+        try:
+            if t.numerator_as_long() == 0 if z3.is_rational_value(t) else t.as_long() == 0:
+                return ('0',)
+        except Exception:
+            pass
+    if z3.is_app(t) and t.num_args() > 0:
+        return (t.decl().name(),) + tuple(grouping(c) for c in t.children())
+    return ('leaf', t.get_id())
+
+
+def same_grouping(a, b):
+    if isinstance(a, tuple) and isinstance(b, tuple):
+        if len(a) == 2 and a[0] == 'term' and len(b) == 2 and b[0] == 'term':
+            return grouping(core.real_term(a[1])) == grouping(core.real_term(b[1]))
+        return len(a) == len(b) and all(same_grouping(x, y) for x, y in zip(a, b))
+    return True
+
+
 def execute(mods, S, runner, schedule, which='run'):
     p, q, r, chk, p6 = S
     fs = SymFS()
@@ -218,8 +254,7 @@ def run_case(case):
                 v = {'signature': sig, 'what': '%s raises %s in pooled mode while the serial mode of the same request returns' % (runner['name'], base[0][1:]),
                      'index': case['index'], 'k': case['k'], 'schedule': {'real_vs_serial': True}}
                 if common.claim('C12', sig):
-                    d = make_replay(v)
-                    status, out = common.run_replay(d)
+                    d, status, out = common.replay_portfolio(lambda: make_replay(v))
                     v2 = {'signature': sig, 'what': v['what'], 'replay': d}
                     if status == 'reproduced':
                         res['violations'].append(v2)
@@ -263,7 +298,10 @@ def run_case(case):
             what = '%s with %d worker process%s' % (runner['name'], w, '' if w == 1 else 'es')
             obl.holds(outcome[0] == 'returned', '%s raised %s' % (what, outcome[1:]))
             if outcome[0] == 'returned':
-                obl.holds(same(outcome[1], base[0][1], ctx), '%s: the return value differs from the run with 16 workers' % what)
+                if obl.holds(same(outcome[1], base[0][1], ctx), '%s: the return value differs from the run with 16 workers' % what) and runner['name'] == 'pestle':
+                    # equal as real numbers; in floating point also the ORDER of the additions must not depend on the machine
+                    obl.holds(same_grouping(outcome[1], base[0][1]), '%s: the additions behind the return value are grouped differently than in the run with 16 workers '
+                              '(another floating-point evaluation order)' % what)
                 for o in runner['outputs']:
                     diff = [k for k in set(snap[o]) | set(base[1][o]) if snap[o].get(k) != base[1][o].get(k)]
                     obl.holds(not diff, '%s: output tree %s differs from the run with 16 workers in %s' % (what, o, sorted(diff)[:3]))
@@ -312,8 +350,7 @@ def run_case(case):
         # a schedule counterexample is replayed on the unpatched code with a controllable pool (hook_needed of C12)
         if not common.claim('C12', sig):
             continue
-        d = make_replay(v)
-        status, out = common.run_replay(d)
+        d, status, out = common.replay_portfolio(lambda: make_replay(v))
         v2 = {'signature': sig, 'what': v['what'], 'replay': d}
         if status == 'reproduced':
             res['violations'].append(v2)
@@ -438,6 +475,9 @@ def replay_workers(d, case, runner, mods):
 
         def Pool(self, *a, **k):
             return real_Pool(self.w)
+
+        def cpu_count(self):
+            return self.w           # a machine with as many CPUs as workers
 
     def one(tag, w, which='run'):
         wd = os.path.join(d, 'work_' + tag)
